@@ -653,23 +653,47 @@ func stopRole(c *ouroboros.Connection, ml *muxLog, st *stopRow) string {
 		return false
 	}
 	deadline := time.After(setupDeadline)
-	returned := false
+	viaProtocol := false
 	for {
-		if unreg() && returned {
-			return ""
-		}
 		select {
 		case why := <-done:
 			if why != "" {
 				return why
 			}
-			returned = true
-			if !unreg() {
-				// Unregistering happens inside Stop: nothing more will come
-				return "Stop returned without unregistering the role from the muxer"
+			if unreg() {
+				return ""
 			}
-		case <-ml.notify:
-		case <-time.After(50 * time.Millisecond):
+			if viaProtocol {
+				// unregistering happens inside Protocol.Stop: nothing more will come
+				return "Protocol.Stop returned without unregistering the role from the muxer"
+			}
+			// This role's own Stop only says Done to the peer (or the role was not
+			// running in the eyes of its wrapper): the stop of the instance is the
+			// embedded Protocol.Stop every role has.
+			pv := reflect.ValueOf(h)
+			if pv.Kind() == reflect.Pointer {
+				pv = pv.Elem()
+			}
+			var pp *protocol.Protocol
+			if pv.Kind() == reflect.Struct {
+				if f := pv.FieldByName("Protocol"); f.IsValid() && f.CanInterface() {
+					pp, _ = f.Interface().(*protocol.Protocol)
+				}
+			}
+			if pp == nil {
+				return "Stop returned without unregistering the role from the muxer, and the role has no embedded Protocol"
+			}
+			stat(fmt.Sprintf("history:stopped_through_the_embedded_Protocol.Stop:%d/%s", st.Id, st.Role))
+			viaProtocol = true
+			go func() {
+				defer func() {
+					if x := recover(); x != nil {
+						done <- fmt.Sprintf("Protocol.Stop panicked: %v", x)
+					}
+				}()
+				pp.Stop()
+				done <- ""
+			}()
 		case <-deadline:
 			if unreg() {
 				return "" // the role is gone; that Stop is still waiting for something is another property's subject
